@@ -23,7 +23,8 @@ class TranslateError(Exception):
 def parse_file(rel: str) -> ast.Module:
     path = os.path.join(REPO, rel)
     try:
-        return ast.parse(open(path, encoding='utf-8').read(), filename=path)
+        from harness.astnorm import normalise     # named constants / folded literals read as the literals they are
+        return normalise(ast.parse(open(path, encoding='utf-8').read(), filename=path))
     except (OSError, SyntaxError) as e:
         raise TranslateError(f'cannot parse {rel}: {e}')
 
@@ -214,6 +215,8 @@ def match_template(node: ast.AST, template: str) -> Optional[Dict[str, Any]]:
         t = ast.parse(template, mode='eval').body
     except SyntaxError as e:
         raise TranslateError(f'bad template {template!r}: {e}')
+    from harness.astnorm import norm_like
+    t = norm_like(node, t)
     holes: Dict[str, Any] = {}
     return holes if _match(node, t, holes) else None
 
@@ -418,6 +421,8 @@ def _same_expr(node: ast.AST, template: str) -> bool:
         t = ast.parse(template, mode='eval').body
     except SyntaxError as e:
         raise TranslateError(f'bad template {template!r}: {e}')
+    from harness.astnorm import norm_like
+    t = norm_like(node, t)
     return _match(node, t, {})
 
 
@@ -767,6 +772,8 @@ def match_template_x(node: ast.AST, template: str) -> Optional[Dict[str, Any]]:
         t = ast.parse(template, mode='eval').body
     except SyntaxError as e:
         raise TranslateError(f'bad template {template!r}: {e}')
+    from harness.astnorm import norm_like
+    t = norm_like(node, t)
     holes: Dict[str, Any] = {}
     return holes if _match_x(node, t, holes) else None
 
